@@ -139,7 +139,7 @@ class Check:
             self.log("proofs ok: %d theorems, %d examples; axioms: %s" % (len(theorems), len(examples), ", ".join(sorted(axioms)) or "none"))
         return ok
 
-    def coqchk(self, module):
+    def coqchk(self, module, admit=()):
         # the compiled files are copied under the lock (12 MB) and re-checked from the private copy, so that the
         # independent checker (20+ minutes for the developments over the reals) does not hold up other checks
         vo = os.path.join(self.outdir, "vo")
@@ -147,9 +147,11 @@ class Check:
             shutil.rmtree(vo, ignore_errors=True); os.makedirs(vo)
             for f in os.listdir(COQ):
                 if f.endswith(".vo"): shutil.copy2(os.path.join(COQ, f), vo)
-        rc, o, e, s = sh("timeout 5400 coqchk -o -silent -Q . OmplV OmplV.%s" % module, cwd=vo, timeout=5500)
+        adm = "".join(" -admit " + a for a in admit)      # pre-installed third-party libraries that take an hour to re-check
+        rc, o, e, s = sh("timeout 5400 coqchk -o -silent%s -Q . OmplV OmplV.%s" % (adm, module), cwd=vo, timeout=5500)
         shutil.rmtree(vo, ignore_errors=True)
-        self.step("prove:coqchk", "coqchk -o -silent -Q . OmplV OmplV." + module, s, rc == 0)
+        self.step("prove:coqchk", "coqchk -o -silent%s -Q . OmplV OmplV.%s" % (adm, module), s, rc == 0)
+        if admit: self.assumptions.append("coqchk re-checks the OmplV development; %s and everything it depends on (Flocq, Coquelicot, MathComp, Bignums and the parts of the standard library they use, as installed by the distribution) are loaded without being re-checked: re-checking them takes more than an hour" % ", ".join(admit))
         self.cov["coqchk"] = {"rc": rc, "tail": (o + e)[-1500:]}
         if rc == 124:
             self.broken.append("coqchk did not finish re-checking OmplV.%s within 90 minutes" % module)
